@@ -1046,6 +1046,27 @@ fn build_extra(thorough: bool) -> Vec<Doc> {
         out.push(g);
     }
 
+    // ---- indexed documents whose BGZF members end at fixed byte distances (records and lines span members), with
+    //      the index the noodles indexer builds for that layout
+    for (n, step) in [("bam-mapped-f2", 101usize), ("bcf-sites-f2", 89), ("vcfgz-sites-f2", 83), ("samgz-mapped-f2", 97)] {
+        let d0 = get(n);
+        let i0 = d0.inner.as_ref().unwrap();
+        let flush: Vec<usize> = (1..).map(|j| j * step).take_while(|&p| p < i0.bytes.len()).collect();
+        let name = format!("{}-split", n.rsplit_once('-').unwrap().0);
+        let mut d = make_doc(d0.format, name.clone(), &d0.set, bgzip_at(&i0.bytes, &flush), false);
+        d.equiv_of = Some(d0.name.clone());
+        let (ifmt, ibytes) = match d0.format {
+            Format::Bam => (Format::Bai, bai_for(&d).expect("bai of a split BAM")),
+            Format::Bcf => (Format::Csi, csi_bytes(&ok("bcf::fs::index", with_temp(&d.bytes, |p| bcf::fs::index(p))))),
+            Format::VcfGz => (Format::Tbi, tbi_for(&d)),
+            _ => (Format::Csi, csi_bytes(&ok("sam::fs::index", with_temp(&d.bytes, |p| sam::fs::index(p))))),
+        };
+        let mut x = make_doc(ifmt, format!("{}-of-{name}", ifmt.name()), &d0.set, ibytes, false);
+        x.index_of = Some(name);
+        out.push(d);
+        out.push(x);
+    }
+
     // ---- CSI of a bgzipped SAM (the quick corpus has none)
     if find(&base, "csi-of-samgz-mapped-f2").is_none() {
         let d0 = get("samgz-mapped-f2");
